@@ -470,11 +470,13 @@ def pbd_kernel_covariant(which):
     z4 = jp.array([1.0, 0, 0, 0])
     if which == 'translation':
       def f(ap, xpp, xpr, Ip, mp, ac, xcp, xcr, Ic, mc, dx):
-        o = joints._translation_update(Transform(pos=ap[0], rot=z4), Transform(pos=xpp[0], rot=xpr[0]), Ip, mp, Transform(pos=ac[0], rot=z4), Transform(pos=xcp[0], rot=xcr[0]), Ic, mc, dx[0])
+        # private helpers are called by parameter NAME: their argument order is not part of any contract
+        o = joints._translation_update(pos_p=Transform(pos=ap[0], rot=z4), xi_p=Transform(pos=xpp[0], rot=xpr[0]), i_inv_p=Ip, mass_inv_p=mp, pos_c=Transform(pos=ac[0], rot=z4),
+                                       xi_c=Transform(pos=xcp[0], rot=xcr[0]), i_inv_c=Ic, mass_inv_c=mc, dx=dx[0])
         return o[0].pos, o[0].rot, o[1].pos, o[1].rot
     else:
       def f(ap, xpp, xpr, Ip, mp, ac, xcp, xcr, Ic, mc, dx):
-        o = joints._rotation_update(Transform(pos=xpp[0], rot=xpr[0]), Ip, Transform(pos=xcp[0], rot=xcr[0]), Ic, dx[0])
+        o = joints._rotation_update(xi_p=Transform(pos=xpp[0], rot=xpr[0]), i_inv_p=Ip, xi_c=Transform(pos=xcp[0], rot=xcr[0]), i_inv_c=Ic, dq=dx[0])
         return o[0].pos, o[0].rot, o[1].pos, o[1].rot
     T = lambda p_, r_: _apply_T(A, gq, gt, p_, r_)
     with cut('brax.math:normalize'):
